@@ -438,6 +438,11 @@ op_merge::next (scon &sc) const
 	st.m_idx = 0;
     }
 
+  // Upstream is exhausted for now.  But when this op is part of a
+  // sub-expression, its origin will be fed another stack later on, and
+  // then all the branches need to be tried again, from the first one.
+  st.m_done = false;
+  st.m_idx = 0;
   return nullptr;
 }
 
